@@ -129,7 +129,11 @@ def run(R, env):
         # the miniwasm message has no burn_from field (the holder is the sender; the back-end refuses any other: C19.R1/R4)
         R.ob("C03.R3", "SubmitBatch:burn-sender-and-holder", m["sender"] is not None and is_contract_addr(m["sender"]) and (m["holder"] is None or is_contract_addr(m["holder"])), "burn sender/holder are not the contract", loc=m["loc"], fn=sk)
         R.ob("C03.R3", "SubmitBatch:burn-on-every-success-path", must_pass(hs, m["root_bb"]) and shared.response_contains_call_at(hs, m["root_bb"]), "the burn message is not in the Response of every success path", loc=m["loc"], fn=sk)
-    for op, alts in shared.state_writes(prog, hs, env):
+    # judged where the batch total is not zero; with a zero total an untouched state is the same stored value
+    hs_nz, hs_z = shared.zero_worlds(hs, pending_batch_total)
+    R.worlds += 2
+    zw = [(o_, [(b_, d_) for b_, d_ in (a_ or []) if ("total_liquid_stake_token",) in d_]) for o_, a_ in shared.state_writes(prog, hs_z, env)]
+    for op, alts in shared.state_writes(prog, hs_nz, env) + [(o_, a_) for o_, a_ in zw if a_]:
         good = bool(alts)
         for base, d in alts or []:
             v = d.get(("total_liquid_stake_token",))
